@@ -96,8 +96,12 @@ def standard_replay(mod, path, tier, seed):
     with open(path) as fh:
         v = json.load(fh)
     if v.get("needs_history"):
-        ok = pool.replay_with_history(mod.body, mod.shards(v.get("tier", tier)), v, v.get("tier", tier), seed,
-                                      getattr(mod, "max_dev", lambda t: None)(v.get("tier", tier)))
+        t = v.get("tier", tier)
+        if hasattr(mod, "history_context"):             # checks that explore several groups of shards separately
+            shs, md = mod.history_context(v, t)
+        else:
+            shs, md = mod.shards(t), getattr(mod, "max_dev", lambda t_: None)(t)
+        ok = pool.replay_with_history(mod.body, shs, v, t, seed, md)
         print("order-dependent violation: replayed %d earlier shard(s) + shard %r in a fresh process -> %s"
               % (len(v.get("worker_history") or []), v.get("shard_index"), "reproduced" if ok else "NOT reproduced"))
         if ok:
@@ -130,16 +134,26 @@ def main():
         seed = 0
     _reexec_with_hashseed(seed)
     _bind_repo()
-    mod = importlib.import_module("gv.props." + a.prop.lower())
-    if a.replay:
-        if hasattr(mod, "replay"):
-            rc = mod.replay(a.replay, a.tier, seed)
+    try:
+        mod = importlib.import_module("gv.props." + a.prop.lower())
+        if a.replay:
+            if hasattr(mod, "replay"):
+                rc = mod.replay(a.replay, a.tier, seed)
+            else:
+                rc = standard_replay(mod, a.replay, a.tier, seed)
+        elif hasattr(mod, "run"):
+            rc = mod.run(a.tier, seed)
         else:
-            rc = standard_replay(mod, a.replay, a.tier, seed)
-    elif hasattr(mod, "run"):
-        rc = mod.run(a.tier, seed)
-    else:
-        rc = standard_run(mod, a.tier, seed)
+            rc = standard_run(mod, a.tier, seed)
+    except SystemExit:
+        raise
+    except BaseException as e:          # a defect of the machinery, never a verdict on the code under test
+        import traceback
+
+        print("ENGINE-ERROR: %s: %s" % (type(e).__name__, str(e)[:500]))
+        print(traceback.format_exc()[-1500:])
+        sys.stdout.flush()
+        sys.exit(2)
     sys.stdout.flush()
     sys.exit(rc)
 
